@@ -73,3 +73,50 @@ func TestFraming(t *testing.T) {
 		}
 	})
 }
+
+// TestLifecycle replays C13 scenarios starting at $VERIF_START (0-based line index of this shard).
+// When a scenario leaves goroutines blocked the process exits with status 3 after writing the
+// record; the orchestrator restarts it behind that scenario.
+func TestLifecycle(t *testing.T) {
+	scn, out := os.Getenv("VERIF_SCN"), os.Getenv("VERIF_TRACE")
+	if scn == "" || out == "" {
+		t.Skip("VERIF_SCN / VERIF_TRACE not set")
+	}
+	start, _ := strconv.Atoi(os.Getenv("VERIF_START"))
+	shard, of := shardOf()
+	in, err := os.Open(scn)
+	if err != nil {
+		t.Fatal(err)
+	}
+	defer in.Close()
+	fo, err := os.OpenFile(out, os.O_APPEND|os.O_CREATE|os.O_WRONLY, 0o644)
+	if err != nil {
+		t.Fatal(err)
+	}
+	defer fo.Close()
+	sc := bufio.NewScanner(in)
+	sc.Buffer(make([]byte, 1<<20), 1<<26)
+	n, mine := 0, 0
+	for sc.Scan() {
+		if len(sc.Bytes()) == 0 {
+			continue
+		}
+		n++
+		if (n-1)%of != shard {
+			continue
+		}
+		mine++
+		if mine-1 < start {
+			continue
+		}
+		var s LScenario
+		if err := json.Unmarshal(sc.Bytes(), &s); err != nil {
+			t.Fatalf("DRIVER-ERROR bad scenario: %v", err)
+		}
+		RunLifecycle(t, &s, func(o *LifeObs) {
+			b, _ := json.Marshal(o)
+			fo.Write(append(b, '\n'))
+			fo.Sync()
+		})
+	}
+}
